@@ -174,14 +174,30 @@ Qed.
 Lemma meta_get_fold_el_del_z t k v (l : list Z) s t' k' :
   meta_get (fold_left (fun st i => el_del st t k v (SI i)) l s) t' k' = meta_get s t' k'.
 Proof. apply (meta_get_fold_el_del t k v (fun i : Z => SI i)). Qed.
+Lemma meta_get_fold_el_del_z2 t k v (l : list Z) s t' k' :
+  meta_get (fold_left (fun st i => el_del st t k v (SI i)) l s) t' k' = meta_get s t' k'.
+Proof. apply (meta_get_fold_el_del t k v (fun i : Z => SI i)). Qed.
+Lemma ldelete_meta s ts k h ud : meta_get (ldelete Compact s ts k h ud) TL k = None.
+Proof.
+  unfold ldelete. destruct (h_ver h <? ts).
+  - now rewrite meta_get_del, (proj2 (mkey_eqb_eq (TL, k) (TL, k)) eq_refl).
+  - destruct (list_meta_of ud) as [[hd tl] n]. rewrite meta_get_fold_el_del_z2.
+    now rewrite meta_get_del, (proj2 (mkey_eqb_eq (TL, k) (TL, k)) eq_refl).
+Qed.
+Lemma zrem_all_hdr s ts k h ud m' : meta_get (fst (zrem_all Compact s ts k h ud)) TZ k = Some m' -> m_hdr m' = h.
+Proof.
+  unfold zrem_all. destruct (h_ver h <? ts).
+  - cbn [fst]. rewrite meta_get_del, (proj2 (mkey_eqb_eq (TZ, k) (TZ, k)) eq_refl). discriminate.
+  - pose proof (zrem_entries_hdr s k h ud (zidx s k (h_ver h)) m') as X.
+    destruct (zrem_entries s k h ud (zidx s k (h_ver h))) as [s1 r]. cbn [fst] in X. destruct r; cbn [fst]; exact X.
+Qed.
 Lemma do_ltrim_hdr s ts k a b m m' : meta_get s TL k = Some m -> is_expired Compact (m_hdr m) ts = false ->
   meta_get (fst (do_ltrim Compact s ts k a b)) TL k = Some m' -> m_hdr m' = m_hdr m.
 Proof.
   intros K E. unfold do_ltrim. destruct (live_header s ts TL k m K E) as [L _]. rewrite L. cbn [not_exist_or_expired orb].
   destruct (list_meta_of (Some (m_a m, m_b m))) as [[hd tl] llen]. cbv zeta.
   match goal with |- context [if ?c then _ else _] => destruct c end.
-  - cbn [fst]. destruct (llen =? 0); [now apply same_meta|].
-    rewrite meta_get_del, (proj2 (mkey_eqb_eq (TL, k) (TL, k)) eq_refl). discriminate.
+  - cbn [fst]. destruct (llen =? 0); [now apply same_meta|]. rewrite ldelete_meta. discriminate.
   - match goal with |- context [list_set_meta ?x ?y ?z ?u ?w] => destruct (list_set_meta x y z u w) as [s2|] eqn:LS end;
       [|cbn [fst]; now apply same_meta].
     cbn [fst]. intros K'. eapply meta_list_set_meta; eauto.
@@ -202,7 +218,8 @@ Proof.
   intros K E. unfold do_zremrangebyrank. destruct (live_header s ts TZ k m K E) as [L _]. rewrite L. cbv zeta.
   destruct (size_of (Some (m_a m, m_b m)) =? 0); [cbn [fst]; now apply same_meta|].
   match goal with |- context [if ?c then _ else _] => destruct c end.
-  { cbn [not_exist_or_expired orb fst]. rewrite meta_get_del, (proj2 (mkey_eqb_eq (TZ, k) (TZ, k)) eq_refl). discriminate. }
+  { cbn [not_exist_or_expired orb]. pose proof (zrem_all_hdr s ts k (m_hdr m) (Some (m_a m, m_b m)) m') as X.
+    destruct (zrem_all Compact s ts k (m_hdr m) (Some (m_a m, m_b m))) as [s1 n]. cbn [fst] in *. exact X. }
   match goal with |- context [if ?c then _ else _] => destruct c end; [cbn [fst]; now apply same_meta|].
   match goal with |- context [if ?c then _ else _] => destruct c end; [cbn [fst]; apply meta_incr_size_hdr | apply zrem_entries_hdr].
 Qed.
